@@ -1457,7 +1457,10 @@ func (ev *Event) CreatedAtTime() time.Time {
 	if ev == nil {
 		return time.Unix(0, 0)
 	}
-	return time.Unix(ev.CreatedAt, 0)
+	// time.Unix wraps around beyond the range of time.Time (the last ~62e9 seconds
+	// of int64): saturate, so that a far-future created_at stays in the future.
+	const maxUnixSec = 1<<63 - 1 - 62135596800
+	return time.Unix(min(ev.CreatedAt, maxUnixSec), 0)
 }
 
 func (ev *Event) Address() string {
